@@ -39,7 +39,11 @@ fn rt_case(r: &mut Rng, thorough: bool, index: u64) -> String {
         };
         (to_object(&[el]), "A")
     } else {
-        case_object(r, ts_k, depth)
+        match case_object(r, ts_k, depth) {
+            Ok(x) => x,
+            // line: `refread <ts> D <tag=VR,…> B <hex>`: reference encoding (explicit / undefined lengths mixed) rejected
+            Err((ts, nodes, bytes)) => return format!("refread {} D {} B {}", ts, dict_token(&nodes), hex(&bytes)),
+        }
     };
     let ts_k = match index {
         0 => 1,
